@@ -202,12 +202,61 @@ def check_share(ctx, res, prop, cname):
     res.inst("R-SHARE", f"{nf} methods of {cname} scanned for one container stored under several keys ({n} candidate sites; embedded positive and negative examples behave)", True)
 
 
-def analyse_method(repo, res, prop, cname, fi, directed, writer_names, trusted=(), only_rules=None):
+def alias_variants(fi):
+    """Two ID parameters of one method may be handed the same ID (`H.double_edge_swap(n, n, e1, e2)`).  The walker
+    identifies an ID with the name that carries it, so such calls are analysed separately: for every pair of parameters
+    that are both used as keys of the same incidence table (and are never rebound), a variant of the method in which
+    the second name is replaced by the first - and one variant with all pairs merged.  Returns [(description, fi)]."""
+    if not fi.params:
+        return []
+    selfname = fi.params[0]
+    params = [p for p in fi.params[1:]]
+    rebound = {t.id for n in ast.walk(fi.node) for t in ast.walk(n) if isinstance(t, ast.Name) and isinstance(t.ctx, (ast.Store, ast.Del))}
+    use = {}
+    for n in ast.walk(fi.node):
+        if isinstance(n, ast.Subscript) and isinstance(n.slice, ast.Name) and n.slice.id in params and n.slice.id not in rebound:
+            tb = _table_of(n.value, selfname)
+            if tb in ("_node", "_edge"):
+                use.setdefault(n.slice.id, set()).add(tb)
+    pairs = []
+    names = [p for p in params if p in use]
+    for i, a in enumerate(names):
+        for b in names[i + 1:]:
+            if use[a] & use[b]:
+                pairs.append((a, b))
+    if not pairs:
+        return []
+    import copy as _copy
+
+    def variant(ps):
+        mapping = {b: a for a, b in ps}
+        node = _copy.deepcopy(fi.node)
+
+        class Rn(ast.NodeTransformer):
+            def visit_Name(self, n):
+                if n.id in mapping:
+                    return ast.copy_location(ast.Name(id=mapping[n.id], ctx=n.ctx), n)
+                return n
+
+        node.body = [Rn().visit(b) for b in node.body]
+        return FunctionInfo(fi.module, fi.name, fi.qualname, node, fi.cls, fi.parent)
+
+    out = [(f"{b} is {a}", variant([(a, b)])) for a, b in pairs]
+    disjoint = len({x for p in pairs for x in p}) == 2 * len(pairs)
+    if len(pairs) > 1 and disjoint:
+        out.append((" and ".join(f"{b} is {a}" for a, b in pairs), variant(pairs)))
+    return out
+
+
+def analyse_method(repo, res, prop, cname, fi, directed, writer_names, trusted=(), only_rules=None, _alias=None):
     """Runs the delta analysis on one method for every valuation of its mode names; adds findings."""
     n_paths = 0
     seen = set()
-    fi = inline_selectors(repo, fi)
-    fi = desugar_table_updates(fi)
+    if _alias is None:
+        fi = inline_selectors(repo, fi)
+        fi = desugar_table_updates(fi)
+        for adesc, fi2 in alias_variants(fi):
+            n_paths += analyse_method(repo, res, prop, cname, fi2, directed, writer_names, trusted=trusted, only_rules=only_rules, _alias=adesc)
     for val in valuations(fi.node, with_strings=True):
         ma = MethodAnalysis(repo, fi, directed, val, trusted_params=trusted, writer_methods=writer_names, cname=cname)
         ma.helper_post = lambda m, cname=cname: helper_postcondition(repo, cname, m, directed, writer_names)
@@ -223,7 +272,7 @@ def analyse_method(repo, res, prop, cname, fi, directed, writer_names, trusted=(
         n_paths += 1
         INLINED.setdefault((repo.digest(), cname), set()).update(ma.inlined)
         bal = Balance(ma)
-        vdesc = describe_valuation(val)
+        vdesc = describe_valuation(val) + (f"; called with the same ID twice: {_alias}" if _alias else "")
         evs = [e for e in ma.events if e.rel != "CALL"]
         # ---- normal exits
         try:
